@@ -230,7 +230,7 @@ def emit_small(kind, small):
            'import Pymeeus.Pre%s' % kind]
     if kind == 'R':
         hdr.append('noncomputable section')
-    hdr += ['namespace Pymeeus.Gen%s' % kind, 'open Pymeeus Pymeeus.P%s' % kind, '']
+    hdr += ['namespace Pymeeus.Gen%s' % kind, 'open Pymeeus Pymeeus.P%s' % kind, 'namespace Helio', '']
     o = hdr
     for p in PLANETS:
         for var in ('ORBITAL_ELEM', 'ORBITAL_ELEM_J2000'):
@@ -246,6 +246,7 @@ def emit_small(kind, small):
         o.append('/-- `Pluto.%s` -/' % var)
         o.append('def %s : List (List Num) :=\n  %s' % (var, num_rows(small[var])))
     o.append('')
+    o.append('end Helio')
     o.append('end Pymeeus.Gen%s' % kind)
     return '\n'.join(o) + '\n'
 
@@ -341,7 +342,7 @@ def emit_planets(kind, vs_tables, wr):
     o += ['import PymeeusTables.%s' % p for p in PLANETS]
     if kind == 'R':
         o.append('noncomputable section')
-    o += ['namespace Pymeeus.Gen%s' % kind, 'open Pymeeus Pymeeus.P%s' % kind, '']
+    o += ['namespace Pymeeus.Gen%s' % kind, 'open Pymeeus Pymeeus.P%s' % kind, 'namespace Helio', '']
     for p in PLANETS:
         for key in vs_tables[p]:
             o.append('/-- `%s.%s` as numbers (the generated integers divided by their scale) -/' % (p, VS_NAME[key]))
@@ -383,6 +384,7 @@ def emit_planets(kind, vs_tables, wr):
     o.append('  | "Earth_J2000" => some (Earth_VSOP87_L_J2000, Earth_VSOP87_B_J2000, Earth_VSOP87_R)')
     o.append('  | _ => none')
     o.append('')
+    o.append('end Helio')
     o.append('end Pymeeus.Gen%s' % kind)
     return '\n'.join(o) + '\n'
 
